@@ -196,6 +196,8 @@ class Trace:
         self.evictions = 0
         self.evictions_regular = 0           # evicted while the memory threshold was NOT exceeded (first pass only)
         self.cleanups_exceeded = 0
+        self.watch = False                   # hash every value when it is stored (C01 oracle)
+        self.stored_hash = {}                # key -> (id, checksum) at the moment of the store
         self.prov = {}                       # key -> (provenance hash, frozenset of alternatives of SOL_KEYS)
         self.childprov = []
 
@@ -312,6 +314,8 @@ def make_traced_class():
             if in_tail:
                 key = tr.stack[-1]
                 line = "done %s %s" % (key, self._val_words(self.data[key]))
+                if tr.watch:
+                    tr.stored_hash[key] = (id(self.data[key]), checksum(self.data[key]))
                 vid = self._ids[id(self.data[key])]
             del tr.dels[:]
             exceeded = get_size(self.data) >= self.memory_threshold_inGB * 1024 * 1024 * 1024
@@ -455,7 +459,12 @@ class Monitor:
                     out.append(("cached entry modified in place", k, where))
                 seen[k] = (id(v), cs)
             else:
-                seen[k] = (id(v), checksum(v))
+                cs = checksum(v)
+                st = self.rel._tr.stored_hash.get(k)
+                if st is not None and st[0] == id(v) and st[1] != cs:
+                    # modified between its store and the end of the request that computed it
+                    out.append(("cached entry modified in place", k, where))
+                seen[k] = (id(v), cs)
         self.watch = seen
         return out
 
@@ -496,6 +505,7 @@ def execute(cfg, ops, on_value=None, watch_values=False):
     rel, fields = build(cfg)
     tr = rel._tr
     mon = Monitor(rel, watch_values)
+    tr.watch = bool(watch_values)
     mon.freeze_all()          # build() ends with freeze_data()
     mon.check_values(-1)
     scalar = cfg["N"] ** 3 * 8
@@ -558,8 +568,9 @@ def execute(cfg, ops, on_value=None, watch_values=False):
             if tr.failures:
                 fails += [f + (i,) for f in tr.failures]
                 del tr.failures[:]
-            if fails:
-                break
+            if any(f[0] != "cached entry modified in place" for f in fails):
+                break             # (an in-place modification is recorded and the history goes on: its
+                #                    consequences are then seen by the value comparison)
     return rel, fails
 
 
